@@ -36,14 +36,16 @@ HVals   == {<<>>, <<B("R8")>>, <<B("1.2.3")>>, <<B("a: b")>>, <<B("x y") \o E>>}
 Files   == {B("Foo.kt"), E \o B(".java"), B("R8$$SyntheticClass"), B("a b")}
 
 \* ASTs are produced in two levels so that the second level fans out over workers
+Pads == {<<32, 32>>, <<9>>, <<194, 160>>, <<227, 128, 128>>, <<32, 194, 133>>, <<11>>}
 Heads ==
-  {[k |-> "header"], [k |-> "sourcefile"], [k |-> "class"]}
+  {[k |-> "header"], [k |-> "padheader"], [k |-> "sourcefile"], [k |-> "class"]}
   \cup {[k |-> "field", ty |-> t] : t \in Types}
   \cup {[k |-> "method", ty |-> t, oclass |-> oc, original |-> n] :
           t \in Types, oc \in OClass, n \in Names}
 
 AstsOf(h) ==
   CASE h.k = "header" -> {HeaderAst(key, v) : key \in HKeys, v \in HVals}
+    [] h.k = "padheader" -> {PadHeaderAst(key, v, p) : key \in {B("compiler"), E}, v \in {<<>>, <<B("R8")>>, <<B("a: b")>>}, p \in Pads}
     [] h.k = "sourcefile" -> {SourceFileAst(v) : v \in Files}
     [] h.k = "class" -> {ClassAst(o, b) : o \in Classes, b \in Classes}
     [] h.k = "field" -> {FieldAst(h.ty, n, b) : n \in Names, b \in Obfs}
